@@ -201,8 +201,15 @@ def case(ctx):
             spec["num"] = "frac"
             spec["v"] = [[str(Fr(x) + Fr(rng.randint(-3, 3), den)), str(Fr(y) + Fr(rng.randint(-3, 3), den))]
                          for x, y in spec["v"]]
-    spec = {"A": speca, "B": specb, "big": big}
-    stratum = "%s-%s%s" % (numa, numb, "-bigden" if big else "")
+    tiny = (not big) and rng.random() < 0.15
+    if tiny:
+        # the same drawing in a unit 50000 .. 10**6 times larger: exact arithmetic must not care
+        k = Fr(1, rng.choice([50000, 10 ** 6]))
+        for spec_ in (speca, specb):
+            spec_["num"] = "frac"
+            spec_["v"] = [[str(Fr(x) * k), str(Fr(y) * k)] for x, y in spec_["v"]]
+    spec = {"A": speca, "B": specb, "big": big, "tiny": tiny}
+    stratum = "%s-%s%s%s" % (numa, numb, "-bigden" if big else "", "-tiny" if tiny else "")
     case = Case(ctx, spec, stratum)
     # the exact operands are read from the library objects right after construction (the
     # constructor itself rounds coordinates whose denominator exceeds 10**9, which C13 allows)
@@ -282,7 +289,7 @@ def case(ctx):
                         S.fmt_point(v), M.SYMBOL[opname]), operator=opname)
         # queries: moments of rational polygons are exact Fractions
         A = G.build(speca)
-        for (ea, eb) in ((0, 0), (1, 0), (0, 1), (2, 0), (1, 1), (0, 2)):
+        for (ea, eb) in ((0, 0), (1, 0), (0, 1), (2, 0), (1, 1), (0, 2), (rng.randint(3, 7), rng.randint(0, 7)), (rng.randint(0, 5), rng.randint(3, 8))):
             val, exc = call(shapepy.IntegrateShape.polynomial, A, ea, eb)
             if exc is not None:
                 case.count("moment-raised")
